@@ -51,6 +51,9 @@ def gen_scenario(seed, k):
             {"bin": "t_one", "pkg": "alpha", "name": "always_fails", "ignored": False, "attempts": [fixed_attempt("fail", 10, "F"), fixed_attempt("fail", 20, "F"), fixed_attempt("fail", 30, "F")]},
             {"bin": "t_two", "pkg": "alpha", "name": "flaky", "ignored": False, "attempts": [fixed_attempt("fail", 40, "F"), fixed_attempt("pass", 50, "P"), fixed_attempt("pass", 60, "P")]},
             {"bin": "t_three", "pkg": "beta", "name": "passes", "ignored": False, "attempts": [fixed_attempt("pass", 70, "P")] * 3},
+            # names that begin / end with white space (a custom harness may list them): the attempt's argv must carry them unchanged
+            {"bin": "t_two", "pkg": "alpha", "name": " leading space", "ignored": False, "attempts": [fixed_attempt("pass", 80, "P")] * 3},
+            {"bin": "t_one", "pkg": "alpha", "name": "\u3000wide and trailing ", "ignored": False, "attempts": [fixed_attempt("pass", 90, "P")] * 3},
         ]
         # output containing the two code points XML 1.0 excludes (U+FFFE, U+FFFF), C0 controls, an ANSI escape and invalid UTF-8
         hostile_out = ("before \ufffe middle \uffff \x01\x08\x0b \x1b[31mred\x1b[0m ]]> <&> end\n"
